@@ -151,7 +151,7 @@ pub fn run(outdir: &Path, tier: &str, _seed: u64, shards: usize) {
         }
     }
     let samples: Vec<_> = cases.iter().step_by((cases.len() / 6).max(1)).map(|c| c.desc.clone()).collect();
-    let cs = CaseSet { run_module: "RunC13".into(), cases, checkers: vec!["corr".into(), "prop".into()], extra_imports: vec!["TypeExpr".into()] };
+    let cs = CaseSet { run_module: "RunC13".into(), cases, checkers: vec!["corr".into(), "prop".into()], extra_imports: vec!["TypeExpr".into()], preludes: vec![] };
     cs.write(
         outdir,
         shards,
